@@ -87,7 +87,9 @@ Arguments s_core {A S}.
 
 Inductive event :=
 | EAccept (c : N)               (* accept() on the listening socket returned connection c *)
-| ERead (c : N) (d : bytes)     (* read() on c returned d *)
+| ERead (c : N) (d : bytes) (wok : bool)
+                                (* read() on c returned d; [wok]: a write() to c attempted while this
+                                   event is handled succeeds (false = EPIPE: the peer is already gone) *)
 | EEof (c : N)                  (* read() on c returned 0 / an error: do_io_error *)
 | ETick (d : N).                (* d ms pass; the expiry timer runs *)
 
@@ -152,10 +154,12 @@ Section Bus.
     then let '(st'', o') := drop st' x' in (st'', map OCore o ++ o')
     else (st', map OCore o).
 
-  (* do_authentication *)
-  Definition auth_part (st : state A S) (x : conn A) (a : A) (d : bytes) : state A S * list (out O) :=
+  (* do_authentication: read_data_into_auth, _dbus_auth_do_work, write_data_from_auth
+     (a failed write is do_io_error: the connection is dropped before anything else happens) *)
+  Definition auth_part (st : state A S) (x : conn A) (a : A) (d : bytes) (wok : bool) : state A S * list (out O) :=
     let '(a', reply, v) := o_auth_feed P a d in
     let ro := match reply with [] => [] | _ => [OAuth (c_id x) reply] end in
+    if negb wok && negb (match reply with [] => true | _ => false end) then drop st x else
     match v with
     | AWait =>
         (mkSt (s_now st) (update_conn (s_conns st) (mkConn (c_id x) (c_since x) (PAuth a') (c_loader x) (c_active x))) (s_core st), ro)
@@ -166,7 +170,7 @@ Section Bus.
         (st', ro ++ o)
     end.
 
-  Definition read (st : state A S) (c : N) (d : bytes) : state A S * list (out O) :=
+  Definition read (st : state A S) (c : N) (d : bytes) (wok : bool) : state A S * list (out O) :=
     match find_conn (s_conns st) c with
     | None => (st, [])
     | Some x =>
@@ -175,10 +179,10 @@ Section Bus.
             (* _dbus_read_credentials_socket reads exactly one byte, which must be NUL *)
             match d with
             | [] => (st, [])
-            | b :: rest => if b =? 0 then auth_part st x (o_auth_init P) rest
+            | b :: rest => if b =? 0 then auth_part st x (o_auth_init P) rest wok
                            else drop st x
             end
-        | PAuth a => auth_part st x a d
+        | PAuth a => auth_part st x a d wok
         | PMsg => msg_part st x d
         end
     end.
@@ -214,7 +218,7 @@ Section Bus.
   Definition step (st : state A S) (e : event) : state A S * list (out O) :=
     match e with
     | EAccept c => accept st c
-    | ERead c d => read st c d
+    | ERead c d wok => read st c d wok
     | EEof c => match find_conn (s_conns st) c with
                 | None => (st, [])
                 | Some x => drop st x
